@@ -335,6 +335,45 @@ theorem bufInitFromFile_not_oob {m : Mem} {f : FileSim} {useHint : Bool} {sizeHi
         | some er => exact fileFail_not_oob t1.ok
         | none => simp
 
+theorem bufNormalizeSep_spec {h h' : Heap} {b : Buf} (hb : BufOk h b) (eq : bufNormalizeSep h b = .ok h') :
+    BufStep h h' b b ∧ (regionCells h' b.rid).drop b.len = (regionCells h b.rid).drop b.len ∧
+    (regionCells h' b.rid).length = (regionCells h b.rid).length := by
+  unfold bufNormalizeSep at eq
+  obtain ⟨cells, hl, hst⟩ := bind_ok eq
+  have hlen := Buf.load_length hl
+  obtain ⟨hf, _, hreg⟩ := Buf.store_frame hst
+  refine ⟨⟨hf, hb.of_regLen hreg, Or.inl rfl⟩, ?_⟩
+  have hc := Buf.store_cells hst
+  simp only [List.length_map, hlen] at hc
+  have hcap : b.len ≤ (regionCells h b.rid).length := by
+    have h2 := hb.2.2
+    have h1 := hb.1
+    cases hr : b.rid with
+    | none => simp [hr] at h2; omega
+    | some r =>
+      simp [hr] at h2
+      have := h2.2
+      unfold regLen at this
+      cases hrg : region? h r with
+      | none => simp [hrg] at this
+      | some reg => simp [hrg] at this; simp [regionCells, hrg]; omega
+  rw [hc]
+  split
+  · exact ⟨rfl, rfl⟩
+  · constructor
+    · unfold splice
+      simp only [Nat.zero_add, List.take_zero, List.nil_append, List.length_map, hlen]
+      rw [List.drop_append_of_le_length (by simp [hlen])]
+      simp [hlen]
+    · rw [length_splice (by simp [hlen]; omega)]
+
+theorem bufNormalizeSep_not_oob {h : Heap} {b : Buf} (hb : BufOk h b) : bufNormalizeSep h b ≠ .error .oob := by
+  unfold bufNormalizeSep
+  have h1 := hb.1
+  apply bind_not_oob (Buf.load_not_oob hb.regOk (by omega))
+  intro cells hl
+  exact Buf.store_not_oob hb.regOk (by simp [Buf.load_length hl]; omega)
+
 theorem curHashIgnoreCase_not_oob {h : Heap} {c : Cur} (hc : CurOk h c) : curHashIgnoreCase h c ≠ .error .oob := by
   unfold curHashIgnoreCase
   apply bind_not_oob (Cur.load_not_oob hc (by omega))
